@@ -2,7 +2,7 @@
 
 Spaces (DESIGN §5 C01): (A) all 65,536 class/ID pairs x short lengths x fills x 4 msgmodes x 2
 bitfield views; (B) every named class/ID x every payload length 0..nominal+16 x 4 fills x its
-modes + SETPOLL x 2 views; (C) extreme lengths up to 65,535; (D) consecutive pairs of frames with identical class/ID/length/checksum but different payloads.  Oracle on every accepted frame:
+modes + SETPOLL x 2 views; (C) extreme lengths up to 65,535; (D) consecutive pairs of frames with identical class/ID/length/checksum but different payloads; (E) one frame per routed definition x every single accessor and every ordered pair of the 8 accessors (length, payload, msg_cls, msg_id, identity, msgmode, str, repr) used before the first serialize().  Oracle on every accepted frame:
 serialize() == input; msg_cls / msg_id / length / payload equal the frame's fields;
 eval(repr(msg)) serializes to the same bytes.
 """
@@ -55,7 +55,38 @@ def judge(cid, payload, mode, pbf):
     return "accepted", out
 
 
+ACCESSORS = {
+    "length": lambda m: m.length, "payload": lambda m: m.payload, "msg_cls": lambda m: m.msg_cls, "msg_id": lambda m: m.msg_id,
+    "identity": lambda m: m.identity, "msgmode": lambda m: m.msgmode, "str": str, "repr": repr,
+}
+
+
+def judge_order(cid, payload, mode, pbf, order):
+    """The message is inspected in the given order BEFORE it is serialized: the frame must still come back
+    (the result of serialize() may not depend on which accessors were used first), and so must eval(repr)."""
+    frame = ref.frame(cid[0], cid[1], payload)
+    try:
+        msg = UBXReader.parse(frame, msgmode=mode, parsebitfield=pbf)
+    except Exception:  # noqa: BLE001
+        return "rejected", []
+    out = []
+    try:
+        vals = {a: ACCESSORS[a](msg) for a in order}
+        ser = msg.serialize()
+        if ser != frame:
+            out.append((f"serialize_differs_after_accessors|first={order[0]}", f"order={order} in={frame.hex()[:60]} out={ser.hex()[:60]}"))
+        if "length" in vals and vals["length"] != len(payload):
+            out.append(("length_differs", f"{vals['length']}"))
+        if eval(repr(msg), EVAL_NS).serialize() != frame:  # pylint: disable=eval-used
+            out.append((f"eval_repr_differs_after_accessors|first={order[0]}", f"order={order}"))
+    except Exception as e:  # noqa: BLE001
+        out.append((f"accessor_order_raises|{type(e).__name__}", f"order={order}: {e}"))
+    return "accepted", out
+
+
 def replay_case(case):
+    if case.get("order"):
+        return judge_order(bytes.fromhex(case["clsid"]), bytes.fromhex(case["payload"]), case["mode"], case["pbf"], tuple(case["order"]))[1]
     return judge(bytes.fromhex(case["clsid"]), bytes.fromhex(case["payload"]), case["mode"], case["pbf"])[1]
 
 
@@ -67,6 +98,28 @@ def eval_block(block, acc):
     elif kind == "B":
         log = set()
         it = FS.space_b_block(bytes.fromhex(block[1]), ents, block[2], log)
+    elif kind == "orders":
+        # every single accessor, and every ordered pair of accessors, used before the first serialize()
+        import itertools
+        orders = [(a,) for a in ACCESSORS] + list(itertools.permutations(ACCESSORS, 2))
+        cases = []
+        for e in ents[block[1]::block[2]]:
+            if e.routed and e.clsid and not C.invalid_types(e.pdict):
+                pl = C.build_payload(e, lambda x: 1, 1, lambda i: (3 * i + 1) % 250)
+                if pl is not None:
+                    cases.append((e.clsid, pl, e.mode))
+        if block[1] == 0:
+            cases += [(b"\x99\x01", b"abc", 0), (b"\x99\x01", b"", 0), (b"\x06\x01", b"", 2), (b"\x04\x02", b"caf\xc3\xa9 \xb0", 0)]
+        for cid, pl, mode in cases:
+            for pbf in (1, 0):
+                for order in orders:
+                    st, out = judge_order(cid, pl, mode, pbf, order)
+                    acc.evaluations += 1
+                    acc.transitions += len(order) + 1
+                    acc.extra[st] += 1
+                    for key, detail in out:
+                        acc.violation(key, {"clsid": cid.hex(), "payload": pl.hex(), "mode": mode, "pbf": pbf, "order": list(order)}, detail)
+        return
     elif kind == "collide":
         # pairs of different frames with the same class, ID, length and Fletcher checksum (+1,-2,+1 on three
         # consecutive payload bytes), parsed one after the other in the same process
@@ -114,6 +167,7 @@ def run_tier(tier, t0):
     blocks = [("A", cls, lengths, fills) for cls in range(256)]
     blocks += [("B", cid.hex(), q) for cid in FS.known_clsids()]
     blocks.append(("C",))
+    blocks += [("orders", i, 16) for i in range(16)]
     blocks += [("collide", c) for c in ("0501", "0107", "0601", "9901", "0a04", "1340")]
     acc = engine.sweep(blocks, eval_block)
     engine.finish(
@@ -121,7 +175,7 @@ def run_tier(tier, t0):
         rule=(
             f"(A) all 65,536 class/ID pairs x lengths {lengths} x fills {fills} x msgmode(4) x parsebitfield(2); (B) every named class/ID x "
             + ("lengths {0,1,2,nominal-1,nominal,nominal+1,nominal+16} x 3 fills (incrementing, ff, trailing NULs)" if q else "every length 0..nominal+16 x 6 fills")
-            + " x its modes + SETPOLL x 2 views (count-amplifying pairs at boundary lengths only, listed); (C) extreme lengths up to 65,535; (D) consecutive pairs of frames with identical class/ID/length/checksum but different payloads. "
+            + " x its modes + SETPOLL x 2 views (count-amplifying pairs at boundary lengths only, listed); (C) extreme lengths up to 65,535; (D) consecutive pairs of frames with identical class/ID/length/checksum but different payloads; (E) one frame per routed definition x every single accessor and every ordered pair of the 8 accessors (length, payload, msg_cls, msg_id, identity, msgmode, str, repr) used before the first serialize(). "
             "states = distinct (class/ID, mode, verdict) of space B; distinct_nontrivial = distinct (class, mode, length class, verdict)"
         ),
         assumptions=["frames are built by the reference framing (independent Fletcher)", "a frame the parser refuses with a UBX error is outside C01 (C08 judges it)"],
